@@ -97,6 +97,7 @@ type propCfg struct {
 }
 
 var root string
+var curFinding string
 
 func envGo() []string {
 	env := os.Environ()
@@ -386,6 +387,10 @@ func main() {
 		noShrink = flag.Bool("noshrink", false, "do not minimise")
 		selftest = flag.Bool("determinism", false, "determinism self-test instead of a check")
 		listP    = flag.Bool("list", false, "list properties")
+		mkReplay = flag.Bool("mkreplay", false, "minimise -seed with -features/-finding and write a replay file for the known-findings list")
+		seedF    = flag.Uint64("seed", 0, "seed for -mkreplay")
+		finding  = flag.String("finding", "", "finding name for -mkreplay (appended to the signature)")
+		sigF     = flag.String("sig", "", "expected coarse signature for -mkreplay")
 		race     = flag.Bool("race", false, "force race build")
 	)
 	flag.Parse()
@@ -440,6 +445,18 @@ func main() {
 	bin := build(tc.Race)
 	if *selftest {
 		os.Exit(determinism(bin, *prop, *tier, baseSeed, *features))
+	}
+	if *mkReplay {
+		curFinding = *finding
+		sig := *sigF + ":" + *finding
+		path, ok := minimise(bin, *prop, *tier, *features, Result{Seed: *seedF}, sig, *noShrink)
+		if !ok {
+			fatal2("seed %d does not reproduce %s", *seedF, sig)
+		}
+		dst := filepath.Join(root, "replays", "known-"+*prop+"-"+*finding+".json")
+		os.Rename(filepath.Join(root, path), dst)
+		fmt.Println("wrote", dst)
+		return
 	}
 	known := loadKnown()
 	first := baseSeed * 1000003
@@ -758,7 +775,7 @@ func minimise(bin, prop, tier, features string, r Result, sig string, noShrink b
 	test := func(tp []uint32) bool {
 		tries++
 		f, _ := os.CreateTemp(dir, "cand-*.json")
-		json.NewEncoder(f).Encode(replayFile{Property: prop, Seed: r.Seed, Tier: tier, Features: features, Tape: tp})
+		json.NewEncoder(f).Encode(replayFile{Property: prop, Seed: r.Seed, Tier: tier, Features: features, Finding: curFinding, Tape: tp})
 		f.Close()
 		defer os.Remove(f.Name())
 		sigs, res, _, st := runReplay(bin, f.Name())
@@ -846,7 +863,7 @@ func minimise(bin, prop, tier, features string, r Result, sig string, noShrink b
 		safe = safe[:90]
 	}
 	path := filepath.Join(root, "replays", fmt.Sprintf("%s-%d.json", safe, r.Seed))
-	rf := replayFile{Property: prop, Seed: r.Seed, Tier: tier, Features: features, Signature: sig, Tape: cur}
+	rf := replayFile{Property: prop, Seed: r.Seed, Tier: tier, Features: features, Finding: curFinding, Signature: sig, Tape: cur}
 	// final confirmation in a fresh process, also fills the human readable part
 	if !test(cur) {
 		return "", false
